@@ -164,6 +164,13 @@ def _crash(op, t1, t2, ops, a, k, args):
         ok = ok and got == after                               # (3) acknowledged => durable
       for name in ('s', 'other'):
         ok = ok and svc.lifecycle_ok(before[name], got[name])  # (4) legal states, unique ids, nothing torn
+      if op == 7 and got['s'] is None:
+        # delete-study TOGETHER WITH ITS TRIALS: a study re-created under the same name must start empty
+        st, e = svc.call(sv2.CreateStudy, vs.CreateStudyRequest(parent=svc.OWNER, study=study_pb2.Study(
+            display_name='s', study_spec=svc.spec())))
+        again = _full(sv2)
+        ok = ok and e is None and again['s'] is not None and again['s']['trials'] == {} and again['ops'] == {'w': [], 'v': []}
+        got = again
       tag = '%s@%d/%d:%s' % (method, k, n_events, ''.join(rec.events))
       if not ok:
         reach('bad:' + method)
